@@ -4,6 +4,7 @@
 mod apache;
 mod codecloop;
 mod container;
+mod decblock;
 mod dtarget;
 mod io;
 mod rt_fixed;
@@ -358,6 +359,9 @@ fn run_case(line: &str) -> String {
 		}
 		"cw" => container::cmd_cw(args),
 		"cr" => container::cmd_cr(args),
+		"crt" => decblock::cmd_crt(args),
+		"decode" => decblock::cmd_decode(args),
+		"dprobe" => decblock::cmd_dprobe(args),
 		"apache_read" => apache::cmd_apache_read(args),
 		"apache_write" => apache::cmd_apache_write(args),
 		other => Err(format!("unknown command {other}")),
